@@ -49,6 +49,15 @@ func (i *IRCServer) cmdServerNick(s *Session, reply *Replyctx, msg *irc.Message)
 		Id:    s.Id.Id,
 		Reply: uint64(h.Sum64()),
 	}
+	// The id must be unused: the pseudo-client that got this id earlier may
+	// have been renamed since (SVSNICK), or the hash may collide. A zero Reply
+	// is reserved for sessions created by clients.
+	for {
+		if _, ok := i.sessions[id]; !ok && id.Reply != 0 {
+			break
+		}
+		id.Reply++
+	}
 
 	// s.LastActivity is the timestamp of the robust.Message which
 	// contains the server_NICK command we’re processing.
